@@ -112,6 +112,7 @@ func main() {
 	if r.Counter("holdback_checks_binding") == 0 {
 		r.Inconclusive("no hold-back check was binding (no plaintext longer than one chunk)")
 	}
+	cliStage(r)
 	r.Finish()
 }
 
